@@ -1,6 +1,7 @@
 import Generated.Trans
 import Model.Pool
 import Proofs.Pool
+import Props.C11
 /-
 Tie obligations for C11: `Generated/Trans.lean` holds `(*chpool.Client).Release` and `(*chpool.Pool).checkIdleConnsHealth`
 translated statement by statement from the working tree (extract/golean.go, extract/trans_pool.go) over the puddle
@@ -42,6 +43,24 @@ theorem tie_C11_health_shape (cfg : Cfg) (s : St) :
     Generated.Trans.Pool.checkIdleConnsHealth cfg s =
       (puddleAcquireAllIdle s).2.foldl (Generated.Trans.Pool.healthOne cfg (puddleAcquireAllIdle s).1.now) (puddleAcquireAllIdle s).1 := rfl
 
+
+/-- the property clause about the CODE: in every state the pool invariant allows, the `Release` translated from
+chpool/client.go destroys a connection whose client is closed or whose lifetime is over — it is not in the live set
+afterwards (`C11_release_destroys_dead` transported along `tie_C11_release`) -/
+theorem tie_C11_translated_release_destroys_dead (cfg : Cfg) (hc : cfg.clearOnRelease = true) (s : St) (h : Inv cfg s)
+    (hd id : Nat) (r : Res) (hl : lookup s.handles hd = some id) (hr : r ∈ s.live) (hid : r.id = id)
+    (hdead : r.clientClosed = true ∨ s.now - r.born > cfg.maxLife) :
+    id ∈ (Generated.Trans.Pool.release cfg s hd).destroyed ∧
+      ∀ x ∈ (Generated.Trans.Pool.release cfg s hd).live, x.id ≠ id := by
+  rw [tie_C11_release cfg s hd hc]
+  exact C11_release_destroys_dead cfg hc s h hd id r hl hr hid hdead
+
+/-- … and a second `Release` by the same handle is a no-op on the translated function as well (the handle was cleared) -/
+theorem tie_C11_translated_release_twice (cfg : Cfg) (hc : cfg.clearOnRelease = true) (s : St) (hd : Nat)
+    (hl : lookup (Generated.Trans.Pool.release cfg s hd).handles hd = none) :
+    Generated.Trans.Pool.release cfg (Generated.Trans.Pool.release cfg s hd) hd = Generated.Trans.Pool.release cfg s hd := by
+  rw [tie_C11_release cfg (Generated.Trans.Pool.release cfg s hd) hd hc]
+  exact C11.release_of_none cfg _ hd hl
 
 /-- `Pool.Do` / `Pool.Ping` go through a handle: acquire, run, release the HANDLE (`(*Client).Release`, translated above, with
 its closed-client / lifetime test); `Pool.Acquire` wraps the acquired resource in a handle.  Pinned as the statements stand:
